@@ -71,6 +71,20 @@ func interesting(s ast.Stmt) bool {
 		return true
 	}
 	hit := false
+	// a switch's case expressions live inside its body block, which the walk below does not enter
+	// (nested blocks get their own yields): look at them here, so that `switch { case ctx.Err() != nil:`
+	// right after a blocking call is a preemption point like `if ctx.Err() != nil` is
+	if sw, ok := s.(*ast.SwitchStmt); ok && sw.Body != nil {
+		for _, c := range sw.Body.List {
+			if cc, ok := c.(*ast.CaseClause); ok {
+				for _, e := range cc.List {
+					if interesting(&ast.ExprStmt{X: e}) {
+						return true
+					}
+				}
+			}
+		}
+	}
 	ast.Inspect(s, func(n ast.Node) bool {
 		switch x := n.(type) {
 		case *ast.FuncLit:
